@@ -141,6 +141,8 @@ class Sim:
             parent = self.objs[i]
             if args.get("ask_permutant_first"):
                 parent.get_deltaMax(True)
+            if args.get("ask_kappa_first"):
+                parent.get_kappa()
             from .. import tape as _tape
             with _tape.installed(_tape.Tape(int(args.get("tape", 0)))):      # the shuffle's PRNG is owned by the harness: histories replay
                 child = parent.get_shuffled_sequence(set(args.get("frozen") or []) & set(range(len(self.specs[i][0]))))
@@ -149,6 +151,12 @@ class Sim:
             self.objs.append(child)
             self.per_obj.append(["<shuffled-from-%d>" % i])
             self.nt = True
+            # the new object must answer like a fresh one right away (whatever its parent had cached)
+            for q in ("get_deltaMax", "get_kappa", "get_delta"):
+                got = do(child, q, None)
+                fresh = do(util.sp(child.get_sequence()), q, None)
+                self.ctx.check(got == fresh, "shuffled-child-differs-from-fresh:" + q,
+                               "%s() of a shuffled copy (%s, parent %s) returned %s; a fresh object of that sequence returns %s" % (q, child.get_sequence(), self.specs[i][0], got, fresh))
             return
         q, qa = args["q"], args.get("args")
         seq, phos = self.specs[i]
@@ -240,6 +248,15 @@ def beating_patterns():
             for comp, best in sorted(patmax.table(N).items()):
                 if comp[0] + comp[1] and ref.delta(ref.pat_from_str(best)) > max(ref.dmax_refs(*comp)):
                     _BEATING.append(best)
+        # segregated arrangements just outside the documented >=18-neutral family (few neutrals between the blocks, the rest at one end)
+        for Z in (18, 19, 21):
+            for k in (4, 7, 10):
+                for m in (2, 3, 4):
+                    for pat in ("0" * (Z - m) + "+" * k + "0" * m + "-", "-" + "0" * m + "+" * k + "0" * (Z - m),
+                                "0" * (Z - m) + "-" * k + "0" * m + "+", "+" + "0" * m + "-" * k + "0" * (Z - m)):
+                        P_, M_ = pat.count("+"), pat.count("-")
+                        if ref.delta(ref.pat_from_str(pat)) > max(ref.dmax_refs(P_, M_, Z)):
+                            _BEATING.append(pat)
     return _BEATING
 
 
@@ -258,9 +275,18 @@ def inits(draw):
             phos = []
         elif draw(st.integers(0, 4)) == 0:
             # a designed, segregated ordering (charge blocks, neutrals split between start, middle and end), up to 36 residues
-            n_ = draw(st.integers(6, 36))
-            P_ = draw(st.integers(1, max(1, n_ // 3))); M_ = draw(st.integers(1, max(1, n_ // 3))); Z_ = max(0, n_ - P_ - M_)
+            n_ = draw(st.one_of(st.integers(6, 36), st.integers(24, 36)))
+            P_ = draw(st.integers(1, max(1, n_ // 3))); M_ = draw(st.integers(1, max(1, n_ // 3)))
+            if draw(st.booleans()) and n_ >= 24:
+                P_, M_ = draw(st.integers(1, 4)), draw(st.integers(1, max(1, n_ - 18 - 4)))
+            Z_ = max(0, n_ - P_ - M_)
             s1 = draw(st.integers(0, Z_)); m1 = draw(st.integers(0, Z_ - s1))
+            if Z_ >= 18 and draw(st.booleans()):
+                # just outside the documented >=18-neutral family: few neutrals between the blocks, most of them at one terminus
+                m1 = draw(st.integers(0, min(5, Z_)))
+                s1 = draw(st.sampled_from([0, 1, 2, Z_ - m1, Z_ - m1 - 1, max(0, Z_ - m1 - 2)]))
+                if draw(st.booleans()):
+                    P_, M_ = (1, M_ + P_ - 1) if draw(st.booleans()) else (P_ + M_ - 1, 1)
             pat = "0" * s1 + (("+" * P_ + "0" * m1 + "-" * M_) if draw(st.booleans()) else ("-" * M_ + "0" * m1 + "+" * P_)) + "0" * (Z_ - s1 - m1)
             s = draw(gens.spelled(pat))
             phos = []
@@ -274,7 +300,7 @@ def inits(draw):
 
 
 OPS = {"query": queries(),
-       "shuffle": st.fixed_dictionaries({"obj": st.integers(0, 4), "ask_permutant_first": st.booleans(), "frozen": st.lists(st.integers(0, 29), max_size=3), "tape": st.integers(0, 10 ** 6)})}
+       "shuffle": st.fixed_dictionaries({"obj": st.integers(0, 4), "ask_permutant_first": st.booleans(), "ask_kappa_first": st.booleans(), "frozen": st.lists(st.integers(0, 29), max_size=3), "tape": st.integers(0, 10 ** 6)})}
 
 
 def run(ctx, tier, seed, idx, nshards):
